@@ -407,6 +407,22 @@ func (w *csWorld) runWord(b Beh, cl *csCell) []J {
 			}
 		case "Sub", "Unsub":
 			o["http"], o["status"], o["hasstatus"] = w.put(J{"aid": cl.aid, "iid": cl.c.ID, "ev": s.A == "Sub"})
+		case "SubTwin", "UnsubTwin":
+			// the twin: an evented characteristic with the same instance id in another accessory
+			var tw *csCell
+			for _, x := range w.cells {
+				if x.c.ID == cl.c.ID && x.aid != cl.aid && has(permSet(x.c), "ev") {
+					tw = x
+					break
+				}
+			}
+			if tw == nil {
+				o["twin"] = "none"
+			} else {
+				o["twin"] = tw.name
+				w.put(J{"aid": tw.aid, "iid": tw.c.ID, "ev": s.A == "SubTwin"})
+				defer w.put(J{"aid": tw.aid, "iid": tw.c.ID, "ev": false})
+			}
 		default:
 			continue
 		}
